@@ -265,7 +265,7 @@ def walk_noclosure(n):
 
 
 class Flow:
-    def __init__(self, facts, fn, inline=None, depth=3, lits=False, self_val=None, param_vals=None, track_idx=False, tagger=None):
+    def __init__(self, facts, fn, inline=None, depth=3, lits=False, self_val=None, param_vals=None, track_idx=False, tagger=None, opaque=()):
         self.F = facts
         self.root = fn
         self.inline = inline
@@ -274,6 +274,7 @@ class Flow:
         self.events = []
         self.track_idx = track_idx
         self.tagger = tagger
+        self.opaque = set(OPAQUE) | set(opaque)
         self._active = []
         self._conds = {}
         self.ret = self.run_fn(fn, param_vals, (), ())
@@ -364,7 +365,7 @@ class Flow:
         k = p.get('k')
         if k == 'Bind':
             pid = p['id']
-            if p.get('t') is not None and ty_adt(fr.fn.types[p['t']]) in OPAQUE:
+            if p.get('t') is not None and ty_adt(fr.fn.types[p['t']]) in self.opaque:
                 fr.opq.add(pid)
                 fr.env[pid] = EMPTY
                 return
@@ -687,8 +688,10 @@ class Flow:
             base = self.ev(fr, n['base'], ctx, stack)
         d = n['d']
         if d.startswith('Self:'):
-            d = d[5:]
-        self.events.append(Event('struct', n, fr.fn, ctx, stack, val=fields, extra=(parse_path(d)[1], base)))
+            adt = fr.fn.owner or parse_path(d[5:])[0]
+        else:
+            adt = parse_path(d)[1]
+        self.events.append(Event('struct', n, fr.fn, ctx, stack, val=fields, extra=(adt, base)))
         if base is not None:
             return flat(fields) | flat(base)
         return fields
